@@ -2,7 +2,8 @@
    and what the invariants of ProofsA/B/C give for it and for complete histories. *)
 From OlaBase Require Import Bytes.
 From Coq Require Import Sorted.
-From C12 Require Import Gen Model ProofsT ProofsB ProofsC.
+From Coq Require Import Permutation.
+From C12 Require Import Gen Model ProofsT ProofsF ProofsA ProofsB ProofsC ProofsD ProofsR ProofsE.
 Local Open Scope N_scope.
 
 Inductive reachable (max : N) (discov : bool) (ms : list mitem) (ds : list bool)
@@ -63,11 +64,11 @@ Qed.
 
 (* destruction *)
 Lemma count_id_destroyed i q :
-  count_id i (map (fun e : N * list op => mkComp (fst e) K_DESTROYED (mkReply RDM_FAILED_TO_SEND None 0) []) q)
+  count_id i (map (fun e : N * list op => mkComp (fst e) K_DESTROYED (mkReply RDM_FAILED_TO_SEND None 0) [] []) q)
   = count_q i q.
 Proof. induction q as [|e q IH]; cbn [count_id count_q map c_id]; auto. Qed.
 Lemma accepted_destroyed q :
-  accepted_ids (map (fun e : N * list op => mkComp (fst e) K_DESTROYED (mkReply RDM_FAILED_TO_SEND None 0) []) q)
+  accepted_ids (map (fun e : N * list op => mkComp (fst e) K_DESTROYED (mkReply RDM_FAILED_TO_SEND None 0) [] []) q)
   = map fst q.
 Proof. unfold accepted_ids. induction q as [|e q IH]; cbn; auto. cbn in IH. rewrite IH. auto. Qed.
 
@@ -79,7 +80,7 @@ Definition final_ok (f : st) : Prop :=
 
 Lemma destroy_done s :
   g_done (destroy s) = g_done s ++
-    map (fun e : N * list op => mkComp (fst e) K_DESTROYED (mkReply RDM_FAILED_TO_SEND None 0) []) (s_queue s).
+    map (fun e : N * list op => mkComp (fst e) K_DESTROYED (mkReply RDM_FAILED_TO_SEND None 0) [] []) (s_queue s).
 Proof. reflexivity. Qed.
 Lemma destroy_next s : h_next (destroy s) = h_next s.
 Proof. reflexivity. Qed.
@@ -121,3 +122,78 @@ Qed.
 Lemma reach_paused max discov ms ds s ag :
   reachable max discov ms ds s ag -> h_paused s = negb (s_active s) /\ g_psends s = 0.
 Proof. intros Hr. exact (reach_B _ _ _ _ _ _ Hr). Qed.
+
+(* ---- round 2: one outstanding, own reply / overflow, queue-full bookkeeping, discovery ---- *)
+Lemma reach_A max discov ms ds s ag : reachable max discov ms ds s ag -> InvA s ag.
+Proof.
+  induction 1.
+  - unfold InvA, AP, init; cbn. repeat split; auto; try lia; intros; lia.
+  - unfold InvA in *. cbn. exact IHreachable.
+  - eapply step_A; eauto.
+Qed.
+Lemma reach_D max discov ms ds s ag : reachable max discov ms ds s ag -> DI s.
+Proof.
+  induction 1.
+  - apply DI_init.
+  - apply DI_trace; auto.
+  - eapply step_D; eauto. eapply reach_A; eauto.
+Qed.
+Lemma reach_R max discov ms ds s ag : reachable max discov ms ds s ag -> RI s.
+Proof.
+  induction 1.
+  - apply RI_init.
+  - apply RI_trace; auto.
+  - eapply step_R; eauto.
+Qed.
+Lemma reach_E max discov ms ds s ag : reachable max discov ms ds s ag -> EI s ag.
+Proof.
+  induction 1.
+  - apply EI_init.
+  - apply EI_trace; auto.
+  - eapply step_E; eauto. eapply reach_A; eauto.
+Qed.
+
+Lemma reach_outstanding max discov ms ds s ag :
+  reachable max discov ms ds s ag ->
+  len (m_out s) + len (m_dout s) <= 1 /\ g_conc s <= 1 /\ g_fatal s = false /\
+  (s_pending s = true <-> m_out s <> []).
+Proof.
+  intros Hr. destruct (reach_A _ _ _ _ _ _ Hr) as (Hout & Hdout & _ & _ & Hc & Hf).
+  destruct Hout as [(Ho1 & Ho2)|(i0 & cb0 & rest0 & Ho1 & Ho2 & Ho3 & Ho4)];
+  destruct Hdout as [Hd1|(r0 & Hd1 & Hd2 & Hd3)]; try congruence;
+  rewrite ?Ho1, ?Hd1, ?Ho3; cbn; repeat split; auto; try lia; try congruence; intros; congruence.
+Qed.
+
+Lemma destroy_D s : DI s -> Forall comp_ok (g_done (destroy s)).
+Proof.
+  intros [Hd _]. rewrite destroy_done. apply Forall_app; split; [exact Hd|].
+  apply Forall_forall. intros c Hin. apply in_map_iff in Hin. destruct Hin as (e & He & _). subst c.
+  unfold comp_ok; cbn. intros Hk; discriminate.
+Qed.
+Lemma history_own max discov ms ds h f :
+  run_history max discov ms ds h = Some f -> Forall comp_ok (g_done f).
+Proof.
+  unfold run_history. destruct (exec_ops (init max discov ms ds) h) as [s|] eqn:E; [|discriminate].
+  intros H; inversion H; subst. apply destroy_D.
+  eapply reach_D. eapply exec_ops_reach; [apply R_init|exact E].
+Qed.
+
+Lemma nodup_app_l {A} (a b : list A) : NoDup (a ++ b) -> NoDup a.
+Proof.
+  induction a as [|x a IH]; cbn; intros H; [constructor|].
+  inversion H; subst. constructor; [|apply IH; assumption].
+  intros Hin. apply H2. apply in_or_app. left. exact Hin.
+Qed.
+
+Lemma reach_discovery max discov ms ds s ag :
+  reachable max discov ms ds s ag ->
+  flat_map run_dids (g_runs s) ++ pdids (s_pdisc s) = nseq (N.to_nat (h_ndid s)) /\
+  Forall run_ok (g_runs s) /\
+  NoDup (map fst (g_ddone s)) /\
+  Forall (fun x => in_run (fst x) (snd x) (g_runs s)) (g_ddone s).
+Proof.
+  intros Hr. destruct (reach_E _ _ _ _ _ _ Hr) as (E1 & E2 & E3 & E4 & _).
+  split; [exact E1|]. split; [exact E2|]. split; [|exact E4].
+  apply Permutation_sym in E3. pose proof (Permutation_NoDup E3 (nseq_nodup _)) as Hn.
+  apply nodup_app_l in Hn. exact Hn.
+Qed.
